@@ -20,6 +20,8 @@ type CConfig struct {
 	Relay       int      `json:"relay"`         // >0: another BitXHub (id 1357) with this many validators is registered as relay chain
 	NoFabsimCap bool     `json:"no_fabsim_cap"` // lift the per-run cap on proofs handed to the FabricSim validator (only used by the known-finding replay of the validator-pool wedge)
 	Profile     string   `json:"profile"`
+	Late        bool     `json:"late"`       // every chain has one more service ("sl") that is not registered in the prologue: "register" steps submit it during the run
+	BigBlocks   bool     `json:"big_blocks"` // few cuts: most blocks are filled to the sequencer's limit
 }
 
 // CStep is one symbolic workload step. Operands are resolved against the model at execution time
@@ -38,6 +40,7 @@ type CStep struct {
 	Proof   string `json:"proof,omitempty"`   // "" valid | absent | badhash | reject (the bound rule refuses it)
 	Signers []int  `json:"signers,omitempty"` // relay hub: validator indexes signing the proof (>=100: unregistered key)
 	Sender  string `json:"sender,omitempty"`  // "" the right chain admin | other | user
+	Ghost   bool   `json:"ghost,omitempty"`   // the destination service does not exist on the destination chain
 	Group   int    `json:"group,omitempty"`   // >0: one-to-many group id (model-level), see groups
 	GKeys   []int  `json:"gkeys,omitempty"`   // group: destination pair indexes of all children
 	// governance
@@ -55,7 +58,9 @@ type CStep struct {
 }
 
 func policies(r *sim.Rand, n int) []Policy {
-	ps := []Policy{{ProofType: "serial"}}
+	// the reference replica is quiet (no restarts, shipped cache sizes) but its proof mode is drawn too:
+	// "parallel" is what repo.DefaultConfig() ships
+	ps := []Policy{{ProofType: []string{"serial", "parallel"}[r.Intn(2)]}}
 	for i := 1; i < n; i++ {
 		p := Policy{ProofType: []string{"serial", "parallel"}[r.Intn(2)], Cache: []int{0, 1, 2, 4}[r.Intn(4)]}
 		for k := 0; k < r.Intn(3); k++ {
@@ -68,6 +73,9 @@ func policies(r *sim.Rand, n int) []Policy {
 
 func genWorld(r *sim.Rand) World {
 	w := World{Admins: r.Range(1, 4), GasPrice: []uint64{0, 1, 50000, 50000}[r.Intn(4)], Audit: r.Chance(0.5), ChainID: 1356}
+	if r.Chance(0.5) {
+		w.Normal = r.Intn(w.Admins)
+	}
 	return w
 }
 
@@ -76,6 +84,10 @@ func Generate(prop string, r *sim.Rand, tier string) *sim.Plan {
 	cfg := CConfig{World: genWorld(r), Chains: r.Range(2, 3), Services: r.Range(1, 2), Users: 3, Profile: prop}
 	if prop == "C15" || prop == "C16" {
 		cfg.World.Admins = r.Range(1, 4)
+		cfg.World.Normal = 0
+		if r.Chance(0.6) {
+			cfg.World.Normal = r.Intn(cfg.World.Admins)
+		}
 		if r.Chance(0.6) {
 			cfg.World.Strategy = []string{"a > 0.5 * t", "a >= t", "a >= 1", "a - r >= 2", "a >= 0.75 * t"}[r.Intn(5)]
 			if cfg.World.Strategy == "a - r >= 2" && cfg.World.Admins < 2 {
@@ -112,6 +124,11 @@ func Generate(prop string, r *sim.Rand, tier string) *sim.Plan {
 	if tier == "thorough" {
 		n = r.Range(15, 160)
 	}
+	cfg.BigBlocks = r.Chance(0.35)
+	switch prop {
+	case "C16", "C01", "C02", "C04", "C06":
+		cfg.Late = r.Chance(0.5)
+	}
 	p := &sim.Plan{}
 	g := &gen{r: r, cfg: &cfg}
 	for i := 0; i < n; i++ {
@@ -130,8 +147,12 @@ type gen struct {
 
 func (g *gen) npairs() int {
 	// ordered pairs of services on different chains
-	n := g.cfg.Chains * g.cfg.Services
-	return n * (n - g.cfg.Services)
+	per := g.cfg.Services
+	if g.cfg.Late {
+		per++
+	}
+	n := g.cfg.Chains * per
+	return n * (n - per)
 }
 
 func (g *gen) ibtp() CStep {
@@ -154,6 +175,9 @@ func (g *gen) ibtp() CStep {
 	}
 	if r.Chance(0.05) {
 		s.Sender = []string{"other", "user"}[r.Intn(2)]
+	}
+	if r.Chance(0.07) {
+		s.Ghost = true
 	}
 	return s
 }
@@ -229,6 +253,10 @@ func (g *gen) govOp() CStep {
 	}
 	if r.Chance(0.1) {
 		st.Role = []string{"outsider", "chainadmin", "govadmin"}[r.Intn(3)]
+	}
+	if g.cfg.Late && r.Chance(0.25) {
+		// submit the registration of the chain's late service (again, if it was submitted before)
+		st.Obj, st.Act, st.B, st.Role = "service", "register", g.cfg.Services, "chainadmin"
 	}
 	return st
 }
@@ -330,6 +358,9 @@ func (g *gen) step(prop string) []CStep {
 		if g.cfg.Relay > 0 {
 			w[4] = 5
 		}
+		if g.cfg.BigBlocks {
+			w[2] = 1
+		}
 		switch r.Weighted(w) {
 		case 0:
 			return []CStep{g.proofIBTP()}
@@ -379,7 +410,16 @@ func (g *gen) step(prop string) []CStep {
 				}
 			}
 		}
-		switch r.Weighted([]int{10, 3, 5, 1, 1}) {
+		wd := []int{10, 3, 5, 1, 1, 1, 2}
+		if g.cfg.BigBlocks {
+			wd[2] = 1
+		}
+		switch r.Weighted(wd) {
+		case 5:
+			// lifecycle operations between the IBTPs: destinations and sources become unavailable and come back
+			return []CStep{g.govOp()}
+		case 6:
+			return []CStep{CStep{Op: "vote", N: r.Intn(64), A: r.Intn(16), V: []string{"approve", "approve", "approve", "reject"}[r.Intn(4)]}}
 		case 4:
 			return []CStep{g.poor()}
 		case 0:
@@ -416,6 +456,9 @@ func unmarshalCfg(raw json.RawMessage) (CConfig, error) {
 	}
 	if cfg.World.Admins > 4 {
 		cfg.World.Admins = 4
+	}
+	if cfg.World.Normal < 0 || cfg.World.Normal >= cfg.World.Admins {
+		cfg.World.Normal = 0
 	}
 	if cfg.World.ChainID == 0 {
 		cfg.World.ChainID = 1356
@@ -479,6 +522,14 @@ func SimplifyConfig(raw json.RawMessage) []json.RawMessage {
 	if cfg.World.Admins > 1 {
 		c := cfg
 		c.World.Admins--
+		if c.World.Normal >= c.World.Admins {
+			c.World.Normal = c.World.Admins - 1
+		}
+		out = append(out, sim.MustJSON(c))
+	}
+	if cfg.World.Normal > 0 {
+		c := cfg
+		c.World.Normal--
 		out = append(out, sim.MustJSON(c))
 	}
 	if cfg.World.Audit {
